@@ -138,6 +138,16 @@ func modelStrings(m smt.Model) map[string]string {
 
 // runNative builds the test binary of pkgRel (with all harness files overlaid) once and runs
 // it on the given replay files. Returns results keyed by file.
+// runDir: the directory a replay binary runs in - the package directory, or the repository root for the overlay-only
+// harness packages (zzverif/...), which have no directory on disk.
+func runDir(pkgRel string) string {
+	d := filepath.Join(repoRoot, pkgRel)
+	if st, err := os.Stat(d); err == nil && st.IsDir() {
+		return d
+	}
+	return repoRoot
+}
+
 func runNative(pkgRel string, overlayFiles map[string]string, files []string) (map[string]NativeResult, string, error) {
 	work, err := ioutil.TempDir(filepath.Join(verifRoot, ".work"), "replay")
 	if err != nil {
@@ -225,7 +235,7 @@ func runNative(pkgRel string, overlayFiles map[string]string, files []string) (m
 				end = len(set)
 			}
 			run := exec.Command(bin, "-test.run", "^TestVerifReplay$", "-test.count=1", "-test.timeout=300s")
-			run.Dir = filepath.Join(repoRoot, pkgRel)
+			run.Dir = runDir(pkgRel)
 			run.Env = append(env, "VERIF_REPLAY="+strings.Join(set[start:end], ","))
 			o, _ := run.CombinedOutput()
 			logs.Write(o)
@@ -249,7 +259,7 @@ func runNative(pkgRel string, overlayFiles map[string]string, files []string) (m
 				}
 				t0 := time.Now()
 				one := exec.Command(bin, "-test.run", "^TestVerifReplay$", "-test.count=1", "-test.timeout=120s")
-				one.Dir = filepath.Join(repoRoot, pkgRel)
+				one.Dir = runDir(pkgRel)
 				one.Env = append(env, "VERIF_REPLAY="+f)
 				oo, oerr := one.CombinedOutput()
 				logs.Write(oo)
@@ -402,6 +412,9 @@ func cmdCheck(prop string, tier string) int {
 	var pkgs []string
 	for _, h := range hs {
 		if h.Prop == prop && (thorough || !h.Thorough) {
+			if only := os.Getenv("VERIF_ONLY"); only != "" && !regexp.MustCompile(only).MatchString(h.Name) {
+				continue // development aid: run a subset of the property's harnesses (never set by the registered commands)
+			}
 			mine = append(mine, h)
 			pkgs = append(pkgs, h.PkgRel)
 		}
@@ -507,7 +520,7 @@ func cmdCheck(prop string, tier string) int {
 			rf := ReplayFile{Property: prop, Harness: h.Name, Pkg: h.PkgRel, AssertID: v.AssertID, Why: v.Why, Values: modelStrings(v.Model), Choices: v.Choices, Thorough: thorough}
 			if strings.Contains(h.Name, "MapOrder") {
 				rf.Repeat = 300 // Go randomises map iteration natively: repeat until the order that fails shows up
-			} else if h.PkgRel == "store/rootmulti" || h.PkgRel == "baseapp" {
+			} else if h.PkgRel == "store/rootmulti" || h.PkgRel == "baseapp" || h.PkgRel == "zzverif/vapp" {
 				// the real root multistore commits its substores in Go map order (the engine uses insertion order): a
 				// counterexample that depends on which substore was flushed first may need a few native attempts
 				rf.Repeat = 40
